@@ -107,6 +107,17 @@ namespace sim
         virtual void judgeExit(const Options &, const Json & /*plan*/, CaseResult &, const Json & /*exitInfo*/)
         {
         }
+        // appended to crash / hang classes so that they name the component that died (e.g. " planner=RRT")
+        virtual std::string crashContext(const Json & /*plan*/) const
+        {
+            return "";
+        }
+        // false: crashes and hangs are outside this property's statement (another property's check judges them);
+        // such cases are counted as inconclusive here
+        virtual bool judgesCrashes(const Options &) const
+        {
+            return true;
+        }
         // engine-specific plan simplifications tried after ddmin over plan["ops"]
         virtual std::vector<Json> simplifications(const Json & /*plan*/)
         {
@@ -124,6 +135,10 @@ namespace sim
 
     // entry point used by every engine's main()
     int engineMain(Engine &e, int argc, char **argv);
+
+    // fork-per-case engines: report `r` now and leave the child without running any destructor or exit
+    // accounting (used when the system under test was abandoned mid-operation, e.g. step budget exhausted)
+    [[noreturn]] void finishCaseNow(const CaseResult &r);
 
     // helpers for engines
     std::string fmt(const char *f, ...) __attribute__((format(printf, 1, 2)));
